@@ -104,7 +104,7 @@ func (k Keeper) WithdrawAllAvailable(ctx sdk.Context, owner string) (withdrawn s
 		return withdrawn, sdkerrors.Wrap(types.ErrParsing, sdkerrors.Wrapf(err, "withdraw all available owner parsing error: %s", owner).Error())
 	}
 
-	accVestingPools, vestingPoolsFound := k.GetAccountVestingPools(ctx, owner)
+	accVestingPools, vestingPoolsFound := k.GetAccountVestingPools(ctx, ownerAddress.String())
 	if !vestingPoolsFound {
 		k.Logger(ctx).Debug("withdraw all available no vesting pools found error", "owner", owner)
 		return withdrawn, sdkerrors.Wrapf(sdkerrors.ErrNotFound, "withdraw all available - no vesting pools found error: owner: %s", owner)
@@ -170,7 +170,7 @@ func (k Keeper) WithdrawAllAvailable(ctx sdk.Context, owner string) (withdrawn s
 func (k Keeper) SendToNewVestingAccount(ctx sdk.Context, owner string, toAddr string, vestingPoolName string, amount math.Int, restartVesting bool) (withdrawn sdk.Coin, returnedError error) {
 	k.Logger(ctx).Debug("send to new vesting account", "owner", owner, "toAddr", toAddr, "vestingPoolName", vestingPoolName, "amount", amount, "restartVesting", restartVesting)
 
-	_, toAccAddress, err := types.ValidateSendToVestingAccount(owner, toAddr, vestingPoolName, amount)
+	ownerAccAddress, toAccAddress, err := types.ValidateSendToVestingAccount(owner, toAddr, vestingPoolName, amount)
 	if err != nil {
 		k.Logger(ctx).Debug("send to new vesting account validation error", "error", err.Error())
 		return withdrawn, err
@@ -182,7 +182,7 @@ func (k Keeper) SendToNewVestingAccount(ctx sdk.Context, owner string, toAddr st
 		return withdrawn, sdkerrors.Wrap(err, "send to new vesting account - withdraw all available error")
 	}
 
-	accVestingPools, vestingPoolsFound := k.GetAccountVestingPools(ctx, owner)
+	accVestingPools, vestingPoolsFound := k.GetAccountVestingPools(ctx, ownerAccAddress.String())
 	if !vestingPoolsFound || len(accVestingPools.VestingPools) == 0 {
 		k.Logger(ctx).Debug("send to new vesting account no vesting pools found", "owner", owner)
 		return withdrawn, sdkerrors.Wrapf(sdkerrors.ErrNotFound, "send to new vesting account - no vesting pools found for address (%s)", owner)
